@@ -189,6 +189,27 @@ def run_grid(case):
     # rejection probes
     probes = []
     base = [g - 1 for g in grid]
+    follow = [0]
+
+    def after_rejection(what):
+        """The object answered a question it had to refuse; the next admissible question
+        put to the SAME object must get the specified answer."""
+        follow[0] += 1
+        pos = tuple(base) if follow[0] % 2 else tuple(g // 2 for g in grid)
+        want = morton_spec.compressed_morton(grid, pos)
+        x, y, z = (p * chunk for p in pos)
+        coords = (x, min(x + chunk, sizes[0]), y, min(y + chunk, sizes[1]),
+                  z, min(z + chunk, sizes[2]))
+        obs["valid_calls_right_after_a_refusal"] = obs.get(
+            "valid_calls_right_after_a_refusal", 0) + 1
+        if follow[0] % 3:
+            st_, got_ = _call(spec.get_cmc, coords)
+        else:
+            st_, got_ = _call(spec.compressed_morton_code, list(pos))
+        if st_ != "ok" or int(got_) != want:
+            v.append({"kind": "answer-after-a-refused-call-differs-from-spec",
+                      "detail": f"grid {grid} chunk {chunk}: after refusing {what}, position "
+                      f"{pos} -> {st_} {got_}, spec {want}"})
     for ax in range(3):
         for val in (grid[ax], grid[ax] + 1, 2 * grid[ax] + 3, -1):
             p = list(base)
@@ -204,6 +225,7 @@ def run_grid(case):
                       "axis_value_equals_grid": any(a == g for a, g in zip(p, grid))})
         else:
             obs["rejected"] += 1
+            after_rejection(f"position {p}")
     # chunk coordinates: outside the grid, and off the lattice
     for ax in range(3):
         lo = [b * chunk for b in base]
@@ -216,6 +238,7 @@ def run_grid(case):
                       "detail": f"grid {grid} chunk {chunk}: coords {coords} accepted"})
         else:
             obs["rejected"] += 1
+            after_rejection(f"coords {coords}")
         for frac in (0.5, -0.5, 0.25):
             # lower bounds that are not whole numbers are off the lattice whatever the
             # chunk size
@@ -229,6 +252,7 @@ def run_grid(case):
                           "detail": f"grid {grid} chunk {chunk}: coords {coords} accepted"})
             else:
                 obs["rejected"] += 1
+                after_rejection(f"coords {coords}")
         if chunk > 1:
             lo = [b * chunk for b in base]
             lo[ax] += 1
@@ -240,6 +264,7 @@ def run_grid(case):
                           "detail": f"grid {grid} chunk {chunk}: coords {coords} accepted"})
             else:
                 obs["rejected"] += 1
+                after_rejection(f"coords {coords}")
     ntriv = (grid[0] * grid[1] * grid[2]) >= 2
     obs["axes_dropping_out_at_different_levels"] = int(len(set(nb)) > 1)
     obs["power_of_two_axis"] = int(any(g > 1 and g & (g - 1) == 0 for g in grid))
@@ -265,8 +290,14 @@ def run_route(case):
         ids.add(rnd.getrandbits(rnd.choice([4, 8, 12, 16, 24, 32, 48, 64])))
     v = []
     obs = {"triples": 1, "route_ids": 0, "file_names": 0}
-    spec = sharded_base.ShardSpec(mini, shard, preshift_bits=pre)
-    rw = sharded_base.CMCReadWrite(spec)
+    try:
+        spec = sharded_base.ShardSpec(mini, shard, preshift_bits=pre)
+        rw = sharded_base.CMCReadWrite(spec)
+    except Exception as exc:  # noqa: BLE001
+        return {"violations": [{"kind": "valid-bit-triple-refused",
+                                "detail": f"triple (preshift, minishard, shard) = "
+                                f"{case['triple']}: {type(exc).__name__}: {str(exc)[:150]}"}],
+                "obs": obs}
     d = tempfile.mkdtemp()
     names = set()
     for cid in sorted(ids):
@@ -436,6 +467,7 @@ def gates(obs, tier):
         "routing_functions_reached": calls.get("CMCReadWrite.get_shard_key", 0) > 0
         and calls.get("CMCReadWrite.get_minishard_key", 0) > 0,
         "all_rejection_probes_answered": obs.get("rejection_probes", 0) > 0,
+        "valid_calls_right_after_a_refusal": obs.get("valid_calls_right_after_a_refusal", 0) > 100,
         "axes_drop_out_at_different_levels": obs.get(
             "axes_dropping_out_at_different_levels", 0) > 0,
         "power_of_two_grids": obs.get("power_of_two_axis", 0) > 0,
